@@ -2,39 +2,6 @@
 From ReqV Require Export Lib.Bytes Lib.BigEndian Model.QuicVarint Model.H2Frame.
 Open Scope N_scope.
 
-Definition mkh (l t f s : N) : fhdr := {| fh_len := l; fh_type := t; fh_flags := f; fh_sid := s |}.
-Definition mkprio (d : N) (e : bool) (w : N) : prio := {| p_dep := d; p_excl := e; p_weight := w |}.
-
-(* one Write* call with its Go arguments *)
-Inductive wcall :=
-| WData (aiw : bool) (sid : N) (es : bool) (data : bytes) (pad : option bytes)
-| WHeaders (aiw : bool) (sid : N) (frag : bytes) (es eh : bool) (padlen : N) (pr : prio)
-| WPriority (aiw : bool) (sid : N) (pr : prio)
-| WRst (aiw : bool) (sid code : N)
-| WSettings (l : list (N * N))
-| WSettingsAck
-| WPing (ack : bool) (data : bytes)
-| WGoAway (last code : N) (debug : bytes)
-| WWindowUpdate (aiw : bool) (sid incr : N)
-| WContinuation (aiw : bool) (sid : N) (eh : bool) (frag : bytes)
-| WPushPromise (aiw : bool) (sid promise : N) (frag : bytes) (eh : bool) (padlen : N)
-| WRaw (ty flags sid : N) (payload : bytes).
-
-Definition run_wcall (c : wcall) : wres :=
-  match c with
-  | WData a s es d p => write_data a s es d p
-  | WHeaders a s f es eh pl pr => write_headers a s f es eh pl pr
-  | WPriority a s pr => write_priority a s pr
-  | WRst a s c => write_rst a s c
-  | WSettings l => write_settings l
-  | WSettingsAck => write_settings_ack
-  | WPing a d => write_ping a d
-  | WGoAway l c d => write_goaway l c d
-  | WWindowUpdate a s i => write_window_update a s i
-  | WContinuation a s eh f => write_continuation a s eh f
-  | WPushPromise a s p f eh pl => write_push_promise a s p f eh pl
-  | WRaw t f s p => write_raw t f s p
-  end.
 
 Inductive c05_case :=
 | VarintEnc (v : N) (obs_len : option N) (obs_enc : option bytes)
